@@ -199,8 +199,23 @@ func main() {
 			}
 		}
 		// (c) Ralph parseAndVerifyVAA from source
-		if ral != nil {
-			res, err := ral.Run("parseAndVerifyVAA", csrc.Env{"data": csrc.Bytes(wire), "isGovernanceVAA": csrc.Bool(false)})
+		if ral != nil && f.NSig == 0 {
+			r.Count("ralph_skipped_unsigned_vaa", 1) // the contract rejects it before it hashes anything (quorum >= 1)
+		}
+		if ral != nil && f.NSig >= 1 {
+			env := csrc.Env{"data": csrc.Bytes(wire), "isGovernanceVAA": csrc.Bool(false)}
+			if f.NSig >= 1 {
+				// the contract reads the guardian set from its state (getGuardiansInfo: one size byte, then the keys): any
+				// set size G for which the VAA's k signatures are a quorum, floor(2G/3)+1 <= k <= G
+				lo, hi := int(f.NSig), int(f.NSig)
+				for hi+1 <= 255 && (2*(hi+1))/3+1 <= int(f.NSig) {
+					hi++
+				}
+				g := lo + rng.Intn(hi-lo+1)
+				env["guardians"] = csrc.Bytes(append([]byte{byte(g)}, make([]byte, 20*g)...))
+				r.Count(fmt.Sprintf("ralph_runs_with_set_size_%s_quorum", map[bool]string{true: "above", false: "at"}[int(f.NSig) > (2*g)/3+1]), 1)
+			}
+			res, err := ral.Run("parseAndVerifyVAA", env)
 			switch {
 			case err != nil:
 				r.Inconclusive("ralph interpreter: " + err.Error())
